@@ -47,6 +47,112 @@ theorem tape_read_line (dir name ext : Str) (kind mode : Nat) (chunks : List Byt
 
 /-! ### disk -/
 
+/-- what `classify` puts in a leader is already in the form the leader stores: upper case, small numbers -/
+theorem classify_normal (s : Str) :
+    upper (Tape.classify s).1.name = (Tape.classify s).1.name ∧ upper (Tape.classify s).1.ext = (Tape.classify s).1.ext
+    ∧ (Tape.classify s).1.kind % 256 = (Tape.classify s).1.kind ∧ (Tape.classify s).1.mode % 65536 = (Tape.classify s).1.mode := by
+  have hidem : ∀ c : Nat, upperC (upperC c) = upperC c := by
+    intro c; unfold upperC
+    by_cases h : 97 ≤ c ∧ c ≤ 122
+    · rw [if_pos h, if_neg (by omega)]
+    · rw [if_neg h, if_neg h]
+  have huu : ∀ x : Str, upper (upper x) = upper x := fun x => by simp [upper, hidem]
+  have hdrop : ∀ (n : Nat) (x : Str), upper (List.drop n (upper x)) = List.drop n (upper x) := by
+    intro n x
+    have : List.drop n (upper x) = upper (List.drop n x) := by simp [upper, List.map_drop]
+    rw [this, huu]
+  have htake : ∀ (n : Nat) (x : Str), upper x = x → upper (List.take n x) = List.take n x := by
+    intro n x h
+    have : upper (List.take n x) = List.take n (upper x) := by simp [upper, List.map_take]
+    rw [this, h]
+  have hbase : ∀ x : Str, upper (basename (upper x)) = basename (upper x) := fun x => by unfold basename; exact hdrop _ x
+  unfold Tape.classify
+  dsimp only
+  split
+  · exact ⟨hbase s, rfl, rfl, rfl⟩
+  · rename_i dp _
+    have hname : upper (if (basename (upper (List.take dp s))).length > 8 then List.take 8 (basename (upper (List.take dp s))) else basename (upper (List.take dp s)))
+        = (if (basename (upper (List.take dp s))).length > 8 then List.take 8 (basename (upper (List.take dp s))) else basename (upper (List.take dp s))) := by
+      split
+      · exact htake 8 _ (hbase _)
+      · exact hbase _
+    split
+    · exact ⟨hname, (by decide : upper (Tape.str "BAS") = Tape.str "BAS"), rfl, rfl⟩
+    · split
+      · exact ⟨hname, huu _, rfl, rfl⟩
+      · split
+        · exact ⟨hname, huu _, rfl, rfl⟩
+        · exact ⟨hname, huu _, rfl, rfl⟩
+
+/-- the files of a created tape, as a reader sees them -/
+def createdFiles (w : Tape.World) (srcs : List Str) : List C08.TFile :=
+  srcs.map fun s => ⟨(Tape.classify s).1.name, (Tape.classify s).1.ext, (Tape.classify s).1.kind, (Tape.classify s).1.mode,
+    Spec.K7.chunks254 (Tape.contentOf w s)⟩
+
+theorem create_lines_eq_read_lines (w : Tape.World) (v : Bool) : ∀ (srcs : List Str) (bi : Nat),
+    Tape.reportLines w v bi srcs = C08.readLines v bi (createdFiles w srcs) := by
+  intro srcs
+  induction srcs with
+  | nil => intro bi; rfl
+  | cons s rest ih =>
+    intro bi
+    simp only [Tape.reportLines, createdFiles, List.map_cons, C08.readLines]
+    have hsum : ((Spec.K7.chunks254 (Tape.contentOf w s)).map List.length).sum = (Tape.contentOf w s).length := by
+      have := congrArg List.length (C03.chunks_concat (Tape.contentOf w s))
+      rw [List.length_flatten] at this
+      exact this
+    have hcnt := tape_block_count (Tape.contentOf w s)
+    have hraw : (Tape.rawOf w s).length = (Spec.K7.chunks254 (Tape.contentOf w s)).length + 2 := by
+      simp [Tape.rawOf, Tape.fileRaw, hcnt]
+    rw [hsum, hcnt, hraw]
+    congr 1
+    exact ih _
+
+/-- **C12 (tape: create, list and extract print the same report)**: for every list of readable
+    sources with ordinary names that fits on the tape, and either verbosity, the report of the
+    creation, the report of a later listing of the archive it wrote and the report of a later
+    extraction are the same text: per file its name, its true size, its number of data blocks and
+    the position of its leader block. -/
+theorem tape_reports_agree (w : Tape.World) (v : Bool) (archive : Str) (into : Option Str) (srcs : List Str)
+    (hr : Tape.AllReadable w srcs) (hn : C01.ValidNames srcs)
+    (hfit : Spec.K7.encSize (srcs.map (C03.specFile w)) < 21504) :
+    ∃ tape, (Tape.inject w v archive srcs).writes = [(archive, tape)]
+      ∧ (Tape.inject w v archive srcs).out = Tape.reportLines w v 0 srcs
+      ∧ (Tape.enumerate v tape).out = Tape.reportLines w v 0 srcs
+      ∧ (Tape.extract v archive into tape).out = Tape.reportLines w v 0 srcs := by
+  refine ⟨Spec.K7.tape (srcs.map (C03.specFile w)), (C09.accepted w v archive srcs hr hfit).2.1, ?_, ?_⟩
+  · have hfit' : Tape.totalLen (Tape.allRaw w srcs) < Gen.Tape.tapeSize := by rw [C09.needed_eq_encSize]; exact hfit
+    obtain ⟨t', e, _⟩ := Tape.injectLoop_ok w srcs Tape.blank { verbose := v } [] [] hr Tape.written_blank (by simpa using hfit')
+    simp [Tape.inject, e]
+  · -- the created tape read back: its blocks are the frames of `createdFiles`
+    have hblocks : Tape.readAll (Spec.K7.tape (srcs.map (C03.specFile w))) = (createdFiles w srcs).flatMap C08.TFile.frames := by
+      rw [C01.created_tape_blocks]
+      simp only [List.flatMap_map, List.map_flatMap, createdFiles]
+      congr 1
+      funext s
+      rw [C01.frames_of_file]
+      obtain ⟨h1, h2, h3, h4⟩ := classify_normal s
+      simp [C08.TFile.frames, C03.specFile, h1, h2, h3, h4]
+    have hnames : ∀ f ∈ createdFiles w srcs, Tape.NameOK f.name f.ext := by
+      intro f hf
+      simp only [createdFiles, List.mem_map] at hf
+      obtain ⟨s, hs, rfl⟩ := hf
+      have := hn s hs
+      obtain ⟨h1, h2, _, _⟩ := classify_normal s
+      rw [h1, h2] at this
+      exact this
+    have hx : ∀ dir, ∃ s', Tape.readLoop true dir { l := { verbose := v } } (Tape.readAll (Spec.K7.tape (srcs.map (C03.specFile w)))) = (.ret 0, s')
+        ∧ s'.out = Tape.reportLines w v 0 srcs := by
+      intro dir
+      rw [hblocks]
+      obtain ⟨s', e, _, ho⟩ := C08.readLoop_tfiles dir (createdFiles w srcs) { l := { verbose := v } } hnames
+      exact ⟨s', e, by rw [ho, create_lines_eq_read_lines]; simp⟩
+    obtain ⟨sx, ex, hox⟩ := hx (Tape.targetDirOf archive into)
+    have hl := C08.list_extract_agree_dir v (Tape.targetDirOf archive into) _ (by rw [ex])
+    constructor
+    · rw [hl.2, ex]; exact hox
+    · simp only [Tape.extract]; rw [ex]; exact hox
+
 /-- **C12 (plural)**: "s" is printed exactly when the number is not 1 -/
 theorem plural_rule (n : Nat) : (Disk.plural n = [] ↔ n = 1) ∧ (Disk.plural n = Tape.str "s" ↔ n ≠ 1) := by
   unfold Disk.plural
